@@ -35,6 +35,7 @@ import (
 func init() {
 	execs["delegwin"] = guard(execDelegWin)
 	execs["clientexec"] = guard(execClientExec)
+	execs["clientexec2"] = guard(execClientExec2)
 	execs["rsatag"] = guard(execRsaTag)
 	execs["rsastrip"] = guard(execRsaStrip)
 }
@@ -222,4 +223,53 @@ func execRsaStrip(a []string) Result {
 		return Result{Impl: fmt.Sprintf("issued=%v|altered=%v", ok, alt), Oracle: oracle, Extra: map[string]any{"nonce": i}}
 	}
 	return Result{Impl: "skip:no such signature found"}
+}
+
+// execClientExec2: client.Execute through the library's HTTP channel against a peer answering with the given
+// status, content type and body (not an agent message unless kind is "car"). args = [status, content type, body hex|"car"]
+func execClientExec2(a []string) Result {
+	f := c20Setup()
+	st := atoi(a[0])
+	body := f.bodies["valid0"]
+	if a[2] != "car" {
+		body = unhexTok(a[2])
+	}
+	ts := httptest.NewServer(http.HandlerFunc(func(w http.ResponseWriter, r *http.Request) {
+		if a[1] != "" {
+			w.Header().Set("Content-Type", a[1])
+		}
+		w.WriteHeader(st)
+		if st != 204 && st != 304 {
+			w.Write(body)
+		}
+	}))
+	defer ts.Close()
+	u, _ := url.Parse(ts.URL)
+	conn, err := client.NewConnection(edPool[0], thttp.NewHTTPChannel(u))
+	if err != nil {
+		return Result{Impl: "conn-error"}
+	}
+	_, err = client.Execute(nil, conn)
+	if err != nil {
+		return Result{Impl: "error"}
+	}
+	return Result{Impl: "response"}
+}
+
+func genClientExec2(emit Emit) {
+	bodies := []string{"{}", `{"code":429}`, `{"error":{}}`, `{"error":null}`, `{"message":null}`, `{"message":5}`, `{"error":{"message":null}}`, `{"error":"x"}`, "[]", "null", "", "x", `{"message":"m"}`,
+		`{"type":"about:blank","title":"Too Many Requests","status":429}`, "\xff\xfe", `{"message":`}
+	ctypes := []string{"application/json", "application/json; charset=utf-8", "application/problem+json", "text/plain", "", carCT, "application/JSON"}
+	for _, st := range []int{400, 401, 404, 413, 429, 500, 502, 503, 201, 202, 206, 301} {
+		for i, b := range bodies {
+			emit("clientexec2", []string{itoa(st), ctypes[(i+st)%len(ctypes)], hexTok([]byte(b))}, "client-execute/non-200-bodies", true)
+			if i%4 == 0 {
+				emit("clientexec2", []string{itoa(st), "application/json", hexTok([]byte(b))}, "client-execute/non-200-json", true)
+			}
+		}
+	}
+	for _, b := range bodies[:6] {
+		emit("clientexec2", []string{"200", "application/json", hexTok([]byte(b))}, "client-execute/200-not-a-message", true)
+	}
+	emit("clientexec2", []string{"200", carCT, "car"}, "client-execute/200-message", true)
 }
